@@ -173,3 +173,38 @@ Print Assumptions C15_avc_codec_string.
 Example C15_avc_codec_string_hyps :
   codec_string_spec [97; 118; 99; 49] ex_sps = [97; 118; 99; 49; 46; 55; 65; 53; 48; 50; 57].   (* "avc1.7A5029" *)
 Proof. vm_compute. reflexivity. Qed.
+
+(* C15_avc_confrec_encode: for every record whose fields fit the syntax (<= 31 SPS, <= 255 PPS, NAL units up to
+   65535 bytes, chroma_format <= 3, bit depths <= 7, NumSPSExt = 0, NoTrailingInfo unset) Encode over the
+   FixedSliceWriter of capacity Size() never overflows and writes exactly the byte layout of 5.3.3.1.2, and
+   Size() is its length. *)
+Theorem C15_avc_confrec_encode : forall a,
+  confrec_syntax_valid (syntax_of a) = true -> cr_num_sps_ext a = 0 -> cr_no_trailing a = false ->
+  encode_confrec a = Ok (ser_confrec_bytes (syntax_of a))
+  /\ confrec_size a = lenN (ser_confrec_bytes (syntax_of a)).
+Proof. exact avc_confrec_encode. Qed.
+Print Assumptions C15_avc_confrec_encode.
+
+(* C15_avc_confrec_roundtrip: create -> encode -> decode for every record the constructor produces from a
+   valid first SPS: the encoded bytes are the bit layout of the standard for the SPS's values, Size() is
+   their length, decoding returns the values a reader of the record knows (expected_confrec: the trailer
+   fields only for profiles other than 66/77/88) - the created record itself whenever the profile carries
+   the trailer. *)
+Theorem C15_avc_confrec_roundtrip : forall sp rest ppss inc,
+  sps_valid sp = true ->
+  (inc = true -> lenN (nalu_sps sp :: rest) < 32 /\ lenN ppss < 256
+                 /\ forallb ps_ok (nalu_sps sp :: rest) = true /\ forallb ps_ok ppss = true) ->
+  let spss := nalu_sps sp :: rest in
+  let x := confrec_of_sps sp spss ppss inc in
+  exists a bs,
+    create_confrec_br spss ppss inc = Ok a
+    /\ encode_confrec a = Ok bs /\ bs = ser_confrec x /\ confrec_size a = lenN bs
+    /\ decode_confrec bs = Ok (expected_confrec x)
+    /\ (has_trailer (profile_idc sp) = true -> decode_confrec bs = Ok a).
+Proof. exact avc_confrec_roundtrip. Qed.
+Print Assumptions C15_avc_confrec_roundtrip.
+Example C15_avc_confrec_roundtrip_hyps :
+  sps_valid ex_sps = true /\ lenN [nalu_sps ex_sps] < 32
+  /\ forallb ps_ok [nalu_sps ex_sps] = true /\ forallb ps_ok [nalu_pps ex_pps] = true
+  /\ has_trailer (profile_idc ex_sps) = true.
+Proof. vm_compute. repeat split. Qed.
